@@ -350,9 +350,10 @@ def splice_fn(repo, file, item_path, sections, trait=None, nth=0, opts=(), canar
     # X7 statement abstraction: `//@replace K` holds the exact source text of one or more statements (compared
     # token by token, whitespace and comments ignored); `//@with K` the environment call that stands for them.
     # The replaced text is an ASSUMED part of the function (listed in evidence); a change to it loses the anchor.
-    repl_keys = sorted(k for k in sections if k.startswith('replace '))
+    repl_keys = sorted(k for k in sections if k.startswith('replace ') or k.startswith('replace_all '))
     for rk in repl_keys:
         kk = rk.split()[1]
+        many = rk.startswith('replace_all ')
         if 'with ' + kk not in sections:
             raise AnchorLost('template: //@replace %s without //@with %s' % (kk, kk))
         want = [t.text for t in rs.tokenize(sections[rk]) if t.kind not in ('ws', 'comment', 'doc')]
@@ -363,15 +364,16 @@ def splice_fn(repo, file, item_path, sections, trait=None, nth=0, opts=(), canar
                 continue
             if all(toks[body_ci[p0 + j]].text == want[j] for j in range(len(want))):
                 hits.append(p0)
-        if len(hits) != 1:
+        if (len(hits) != 1 and not many) or len(hits) == 0:
             raise AnchorLost('%s: //@replace %s matches %d times (statement text changed?)' % (item_path, kk, len(hits)))
-        a_idx, b_idx = body_ci[hits[0]], body_ci[hits[0] + len(want) - 1]
-        ed.replace(a_idx, b_idx, sections['with ' + kk].strip())
-        rules['X7-replace'] = rules.get('X7-replace', 0) + 1
-        dropped.append('%s:%d statement replaced by an assumed environment call (X7): %s' % (
-            file, toks[a_idx].line, ' '.join(sections[rk].split())[:300]))
+        for h in hits:
+            a_idx, b_idx = body_ci[h], body_ci[h + len(want) - 1]
+            ed.replace(a_idx, b_idx, sections['with ' + kk].strip())
+            rules['X7-replace'] = rules.get('X7-replace', 0) + 1
+            dropped.append('%s:%d statement replaced by an assumed environment call (X7): %s' % (
+                file, toks[a_idx].line, ' '.join(sections[rk].split())[:300]))
     for key, text in sections.items():
-        if key.startswith('replace ') or key.startswith('with '):
+        if key.startswith('replace ') or key.startswith('replace_all ') or key.startswith('with '):
             continue
         if not text.strip() and key != 'spec' and not key.startswith('ret '):
             continue
